@@ -20,7 +20,14 @@
                 sides: derivative-of-value (also in the two extrapolation regions) and knot-continuity
                 relations between ROWS of the two output files; with periodic = TRUE the run uses
                 --boundaries periodic and the first/last rows must agree in value and slope;
-     "fitline"  straight-line data fitted on a coarser --fitgrid: output on the line.            *)
+     "fitline"  straight-line data fitted on a coarser --fitgrid: output on the line; the input table
+                may be LISTED in another order (field `order`: descending, scrambled, two ascending
+                blocks; run with --nocut, flags not compared): a fit does not depend on the order in
+                which the samples are listed.
+   MAGNITUDES: every vector carries exact power-of-two scales xs, ys (x = 2^xs k/xd, y = 2^ys v/4; half
+   of the vectors unscaled, the others ordinates 2^-40 / 2^40, abscissae 2^-20 / 2^20, or both): the
+   harness scales the input table and the grid options and converts the output back, all expectations
+   and relations are RELATIVE (csg_resample is covariant: values 2^ys, derivatives 2^ys / 2^xs).      *)
 EXTENDS SplineRel, TLC, Json, IOUtils
 
 CONSTANTS NSet, GapSet, YSeeds, OffSet, Q, ThinLin, ThinIdent, ThinDov, ThinFit, ThinDec, LongN, Emit
@@ -130,7 +137,21 @@ DovRels == ToRows(PieceRelations(1, K, Deg, Deg = 3)
                   \o (IF c.per /\ c.type = "cubic" THEN <<PeriodicCurv(1, K)>> ELSE <<>>)
                   \o (IF ~c.per /\ c.type = "cubic" THEN NaturalEnds(1, K) ELSE <<>>))
 
+\* ---- magnitudes and listing order (functions of the vector, so that Init stays small) -------------
+Mix == Y[1] + 2 * Y[N] + 3 * N + (K[1] \div 2) + H + Cnt
+ScaleTab == << <<0, 0>>, <<0, -40>>, <<0, 0>>, <<-20, 0>>, <<0, 0>>, <<0, 40>>, <<0, 0>>, <<20, 0>>, <<-20, -40>>, <<0, 0>> >>
+Sc == LET e == ScaleTab[(Mix % 10) + 1] IN
+      IF c.fam = "identdec" THEN <<0, e[2]>> ELSE e           \* decimal abscissae stay as they are
+\* listing order of the input rows (fitline only): 0 ascending, 1 descending, 2 scrambled (stride 2 or 3), 3 two blocks
+OrderKind == IF c.fam = "fitline" THEN (Mix \div 10) % 4 ELSE 0
+Stride == IF N % 2 = 1 THEN 2 ELSE IF N % 3 # 0 THEN 3 ELSE 5
+Listing == IF OrderKind = 0 THEN [i \in 1..N |-> i]
+           ELSE IF OrderKind = 1 THEN [i \in 1..N |-> N + 1 - i]
+           ELSE IF OrderKind = 2 THEN [i \in 1..N |-> (((i - 1) * Stride) % N) + 1]
+           ELSE [i \in 1..N |-> IF i <= (N + 1) \div 2 THEN 2 * i - 1 ELSE 2 * (i - (N + 1) \div 2)]
+
 Theorems == ph = 1 =>
+  /\ {Listing[i] : i \in 1..N} = 1..N                       \* a permutation of the rows
   /\ IsGrid(K) /\ GridTheorems(Mn, Mx, H)
   /\ IntegerGrid(Mn, Mx, H) /\ \A i \in 1..Cnt : RatEq(TG[i], Rat(G[i], 1))
   /\ FlagTheorems(K, F, TG)                                    \* the two loops compute SpecFlag
@@ -149,6 +170,7 @@ Vector == (Emit /\ ph = 1) =>
   PrintT(ToJson([fam |-> c.fam, type |-> c.type, k |-> K, y |-> Y, f |-> F, grid |-> c.grid,
                  fit |-> IF c.fam = "fitline" THEN c.fit ELSE <<>>, per |-> c.per,
                  xd |-> IF c.fam = "identdec" THEN c.xd ELSE 16,
+                 xs |-> Sc[1], ys |-> Sc[2], order |-> Listing,
                  ye |-> IF c.fam \in {"ident", "identdec"} THEN c.ye ELSE FALSE,
                  n |-> Cnt, x |-> G, fl |-> ExpFlags,
                  val |-> FlatRat(IF c.fam = "lin" \/ (c.fam = "ident" /\ c.type = "linear") THEN LinVals
